@@ -72,7 +72,7 @@ def mixed_total_steps(n, s):
 
 # ---------------------------------------------------------- Revolve family
 def _F(x):
-    return Fraction(x).limit_denominator(1 << 20)
+    return Fraction(x)
 
 
 class RevolveRefs:
